@@ -199,4 +199,63 @@ theorem axis_recovery (o : Int) (ns : List Nat) (hpos : ∀ n ∈ ns, 0 < n) (bs
     · intro y
       simp only [List.mem_map, List.mem_range, hbs]
 
+/-! ### assembling the ordinates of one axis (`PVTRReader._make_structured_mesh`) -/
+
+theorem sliceAssign_piece (line W : List Int) (off n : Nat) (hn : 0 < n) (hlen : line.length = W.length)
+    (hoff : off + n + 1 ≤ W.length) :
+    sliceAssign line off ((W.drop off).take (n + 1)) =
+      some (line.take off ++ (W.drop off).take (n + 1) ++ line.drop (off + n + 1)) := by
+  have hpl : ((W.drop off).take (n + 1)).length = n + 1 := by
+    simp only [List.length_take, List.length_drop]; omega
+  unfold sliceAssign
+  simp only [hpl]
+  have h1 : ¬ (n + 1 = 1) := by omega
+  have h2 : min (off + (n + 1)) line.length = off + n + 1 := by omega
+  have h3 : min off line.length = off := by omega
+  simp only [h1, if_false, h2, h3]
+  have h4 : off + n + 1 - off = n + 1 := by omega
+  simp [h4]
+
+theorem assembleLineGo_spec (W : List Int) (ns : List Nat) (hpos : ∀ n ∈ ns, 0 < n) (hne : ns ≠ [])
+    (line : List Int) (off : Nat) (hlen : line.length = W.length)
+    (htake : line.take off = W.take off) (hoff : off + sumList ns + 1 = W.length) :
+    assembleLineGo line off (axisPieces W off ns) = some W := by
+  induction ns generalizing line off with
+  | nil => exact absurd rfl hne
+  | cons n rest ih =>
+    have hn := hpos n (List.mem_cons_self ..)
+    rw [sumList_cons] at hoff
+    simp only [axisPieces, assembleLineGo]
+    rw [sliceAssign_piece line W off n hn hlen (by omega)]
+    simp only
+    have hpl : ((W.drop off).take (n + 1)).length = n + 1 := by
+      simp only [List.length_take, List.length_drop]; omega
+    rw [hpl]
+    have hnext : off + (n + 1) - 1 = off + n := by omega
+    rw [hnext]
+    cases rest with
+    | nil =>
+      simp only [sumList, List.foldr_nil, Nat.add_zero] at hoff
+      simp only [axisPieces, assembleLineGo]
+      congr 1
+      have hd : line.drop (off + n + 1) = [] := List.drop_eq_nil_of_le (by omega)
+      have ht : (W.drop off).take (n + 1) = W.drop off :=
+        List.take_of_length_le (by simp only [List.length_drop]; omega)
+      rw [htake, hd, List.append_nil, ht]
+      exact List.take_append_drop off W
+    | cons n' rest' =>
+      apply ih (fun m hm => hpos m (List.mem_cons_of_mem _ hm)) (List.cons_ne_nil _ _)
+      · simp only [List.length_append, List.length_take, List.length_drop, hpl]; omega
+      · -- the first `off + n` entries are now those of `W`
+        rw [htake, List.append_assoc, List.take_append]
+        have hl : (W.take off).length = off := by simp only [List.length_take]; omega
+        rw [hl, List.take_of_length_le (by omega)]
+        have : off + n - off = n := by omega
+        rw [this, List.take_append_of_le_length (by omega), List.take_take]
+        have : min n (n + 1) = n := by omega
+        rw [this]
+        -- W.take off ++ (W.drop off).take n = W.take (off + n)
+        rw [List.take_add]
+      · omega
+
 end Fc.C06
